@@ -18,6 +18,8 @@ mod req;
 
 use std::collections::BTreeMap;
 
+use warp_core::{ObservationPayload, ProvenanceStore as _};
+
 use serde::{Deserialize, Serialize};
 use warp_core::{
     ActorId, AuthorityBinding, AuthorityDomainId, AuthorityDomainRef, CausalAuthority, CausalPosture, EchoCoordinate, ForkStrandRequest, InboxPolicy,
@@ -497,6 +499,31 @@ struct Fp {
 
 /// Top-level-field fingerprints of the compact `{:?}` renderings (see `fp.rs`; the two `host_test`
 /// instrumentation fields are excluded there exactly as in the shared `fingerprint`).
+/// The recorded history re-appended to a fresh provenance service with outputs on every entry;
+/// `None` when it cannot be rebuilt this way (forked lanes, construction errors).
+fn decorate_history(w: &World) -> Option<warp_core::ProvenanceService> {
+    let mut rebuilt = warp_core::ProvenanceService::new();
+    for wl in &w.spec.worldlines {
+        let st = wl.state.build().ok()?;
+        let base = warp_core::WorldlineState::new(st, wl.state.root_key()).ok()?;
+        rebuilt.register_worldline(wl_id(wl.id), &base).ok()?;
+    }
+    let mut all = Vec::new();
+    for wl in &w.spec.worldlines {
+        let n = w.provenance.len(wl_id(wl.id)).ok()?;
+        for t in 0..n {
+            all.push(w.provenance.entry(wl_id(wl.id), warp_core::WorldlineTick::from_raw(t)).ok()?);
+        }
+    }
+    all.sort_by_key(|e| (e.commit_global_tick, e.worldline_id, e.worldline_tick));
+    for mut e in all {
+        let t = e.worldline_tick.as_u64();
+        e.outputs = (0..3u8).map(|i| (req::channel(i), vec![0x16, t as u8, i])).collect();
+        rebuilt.append_local_commit(e).ok()?;
+    }
+    Some(rebuilt)
+}
+
 fn take_fp(w: &World) -> Fp {
     Fp { r: fp::compact_fingerprint(&format!("{:?}", w.runtime)), p: fp::compact_fingerprint(&format!("{:?}", w.provenance)), e: w.fp_engine() }
 }
@@ -541,6 +568,8 @@ struct Exec {
     lag_after: Option<u8>,
     lag: Option<warp_core::ProvenanceService>,
     lag_taken_at: u8,
+    /// recorded-outputs surface: (commit count it was built at, history re-appended with outputs)
+    deco: Option<(u64, Option<warp_core::ProvenanceService>)>,
     committing_passes: u8,
 }
 
@@ -577,8 +606,61 @@ impl Exec {
             lag_after: s.lag_after,
             lag: None,
             lag_taken_at: 0,
+            deco: None,
             committing_passes: 0,
         }
+    }
+
+    /// Recorded-outputs surface. The runtime commit path clears the bus, so the runtime's own entries
+    /// never carry outputs and every RecordedTruth payload would be empty. The recorded history is
+    /// therefore re-appended to a fresh provenance service with outputs on every entry (outputs are
+    /// not hash-bound; channels 0..3, payload = [0x16, tick, channel]) and every served truth-channel
+    /// ask is re-issued against it: the payload must be exactly the (filtered) outputs of the entry
+    /// whose commit hash the artifact names. A history that cannot be re-appended (forks) or an ask
+    /// that is refused there is counted, never reported.
+    fn ask_decorated(&mut self, read: &Read, full: &Result<ObservationArtifact, ObservationError>, w: &World, ctx: &mut RunCtx, oi: usize) -> Result<(), V> {
+        let Read::Obs(spec) = read else { return Ok(()) };
+        let req = obs_request(spec);
+        let ObservationProjection::TruthChannels { channels } = &req.projection else { return Ok(()) };
+        if self.forked || full.is_err() {
+            return Ok(());
+        }
+        if self.deco.as_ref().map(|(c, _)| *c) != Some(self.commits) {
+            self.deco = Some((self.commits, decorate_history(w)));
+        }
+        let Some((_, Some(deco))) = self.deco.as_ref() else {
+            ctx.hit("reach.recorded_outputs_history_not_rebuilt");
+            return Ok(());
+        };
+        let r = kernel::catch(|| ObservationService::observe(&w.runtime, deco, &w.engine, req.clone())).map_err(|p| ("observe_panicked".to_owned(), format!("history with recorded outputs: observe({req:?}) panicked: {p}")))?;
+        let a = match r {
+            Ok(a) => a,
+            Err(e) => {
+                ctx.hit(&format!("reach.recorded_outputs_refused.{}", err_kind(&e)));
+                return Ok(());
+            }
+        };
+        let wl = a.resolved.worldline_id;
+        let n = deco.len(wl).unwrap_or(0);
+        let mut exp: Vec<(warp_core::TypeId, Vec<u8>)> = Vec::new();
+        for t in 0..n {
+            if let Ok(e) = deco.entry(wl, warp_core::WorldlineTick::from_raw(t)) {
+                if e.expected.commit_hash == a.resolved.commit_hash {
+                    exp = e.outputs.into_iter().filter(|(c, _)| channels.as_ref().map_or(true, |f| f.contains(c))).collect();
+                }
+            }
+        }
+        let ObservationPayload::TruthChannels(got) = &a.payload else {
+            return Err(("reading_not_at_coordinate:recorded_outputs.payload_kind".to_owned(), format!("op#{oi}: {req:?} answered with {:?}", a.payload)));
+        };
+        ctx.hit("reach.recorded_outputs_reading");
+        if !exp.is_empty() {
+            ctx.hit("reach.recorded_outputs_reading_nonempty");
+        }
+        if *got != exp {
+            return Err(("reading_not_at_coordinate:recorded_outputs".to_owned(), format!("op#{oi}: {req:?} resolved to commit {:02x?} at tick {:?} but its payload {got:?} is not that entry's recorded outputs {exp:?}", &a.resolved.commit_hash[..4], a.resolved.resolved_worldline_tick)));
+        }
+        Ok(())
     }
 
     /// Lagging-history fault: the same request against the live runtime and an older provenance
@@ -946,6 +1028,7 @@ impl Exec {
                     Err(e) => ctx.hit(&format!("reach.typed_error.{}", err_kind(e))),
                 }
                 self.ask_lagging(read, Some(&r1), None, w, ctx, oi)?;
+                self.ask_decorated(read, &r1, w, ctx, oi)?;
                 if matches!(req.coordinate.at, ObservationAt::Tick(_)) && self.room_for(r1.is_ok()) && !self.asked.iter().any(|a| matches!(a, Asked::Obs { req: q, .. } if *q == req)) {
                     self.asked.push(Asked::Obs { req, base: r1.ok(), base_commits: self.commits });
                 }
